@@ -728,8 +728,8 @@ theorem Inv.infMap {x : Option Nat} {v : View} (hi : Inv x v) (f : Entry → Ent
       obtain ⟨e, he, rfl⟩ := hback e' he'
       rw [(hf e).1]; exact b e he }
 
-theorem rearmEntry_same (id key t : Nat) (e : Entry) :
-    (rearmEntry id key t e).id = e.id ∧ (rearmEntry id key t e).cid = e.cid ∧ (rearmEntry id key t e).ctx = e.ctx := by
+theorem rearmEntry_same (id key t due : Nat) (e : Entry) :
+    (rearmEntry id key t due e).id = e.id ∧ (rearmEntry id key t due e).cid = e.cid ∧ (rearmEntry id key t due e).ctx = e.ctx := by
   unfold rearmEntry; split <;> exact ⟨rfl, rfl, rfl⟩
 
 /-- the pending write is no longer owed: the dispatch panicked, or the entry is gone -/
@@ -760,8 +760,8 @@ theorem Inv.pqClear {x : Option Nat} {v : View} (hi : Inv x v) : Inv x { v with 
     pqNotSent := fun _ h => by simp at h }
 
 theorem Inv.infInsert {v : View} (hi : Inv none v) {r : DReq} (hd : Deq v r)
-    (hnc : ∃ c, v.get r.cid = some c ∧ c.rxClosed = false) (key rem : Nat) :
-    Inv (some r.id) { v with inflight := v.inflight ++ [{ id := r.id, cid := r.cid, ctx := r.ctx, timerKey := key, remainder := rem }] } := by
+    (hnc : ∃ c, v.get r.cid = some c ∧ c.rxClosed = false) (key rem due : Nat) :
+    Inv (some r.id) { v with inflight := v.inflight ++ [{ id := r.id, cid := r.cid, ctx := r.ctx, timerKey := key, remainder := rem, dueAt := due }] } := by
   obtain ⟨c, hc, a1, a2, a3, a4, a5, a6, a7⟩ := hd.call
   exact { hi with
     inf := fun e he => by
